@@ -23,6 +23,7 @@ func checkC01(c *chk.Ctx) {
 		"R01f the WAL reports an offset as synced only after a successful flush",
 		"R01h follower cursor attaches at the truncated head",
 		"R01i a follower head is accepted without truncation only when the leader log contains that entry (term equal, offset bounded)",
+		"R01m a committed entry's continuation always runs successfully on the leader",
 		"R01l the fencing majority is computed over the very set that is fenced and counted (shared with C05)",
 		"R01k the WAL sync loop completes only the sync requests it received before reading the appended offset that the flush covers",
 		"R01j an election's term is stored by the coordinator before any NewTerm is sent for it (a restarted coordinator must not reuse a term in which a leader was already elected: two leaders of one term would both collect acknowledgements)",
@@ -42,6 +43,7 @@ func checkC01(c *chk.Ctx) {
 	ruleR05aInto(h, "R01j")
 	ruleSyncCompletionsCovered(h, "R01k")
 	ruleR05hInto(h, "R01l")
+	ruleCommittedContinuationsSucceed(h, "R01m")
 }
 
 // writeWorker finds the leader's write worker: the unique repository function that
